@@ -1,1 +1,158 @@
-import Model.Ibl
+import Proofs.Ibl
+import Proofs.Ibl2
+import Proofs.Base
+import Proofs.IblDtype
+/-!
+# C01 — every decoded packing is feasible (both improved-bottom-left encodings, all sizes)
+
+Property theorems only; helper lemmas are in `Proofs/Ibl.lean` (encoding 1, shared geometry) and
+`Proofs/Ibl2.lean` (encoding 2).
+-/
+namespace Ibl
+open Pack Base
+
+/-- **termination of the move loop**: with the fuel the model uses, the `while move_down or move_left`
+loop stops because neither move is possible (every successful move decreases `bottom + left` by ≥ 1
+and both stay non-negative) — the fuel never cuts the loop short. -/
+theorem settle_terminates (win : List Row) (cur : Row) (hb : 0 ≤ cur.b) (hl : 0 ≤ cur.l) :
+    minDown win (settle (fuelFor cur) win cur) ≤ 0 ∧ minLeft win (settle (fuelFor cur) win cur) ≤ 0 :=
+  settle_fuelFor_stable win cur hb hl
+
+/-- the item being dropped never overlaps an item of the window, never leaves the left/bottom/right walls
+and keeps its width, height and id, for any number of moves -/
+theorem settle_keeps_clear (W : Int) (win : List Row) (hw : ∀ p ∈ win, Row.Proper p) (fuel : Nat) (cur : Row)
+    (h : Moving W win cur) : Moving W win (settle fuel win cur) ∧ SameShape (settle fuel win cur) cur :=
+  settle_inv W win hw fuel cur h
+
+/-- after the sign rule and the forced rotation the item fits the empty bin (uses `Inst.Valid`:
+one side ≤ the smaller bin dimension) and has the instance's dimensions in one orientation -/
+theorem rotation_fits (I : Inst) (hv : I.Valid) (v : Int) (hv0 : v ≠ 0) (hr : v.natAbs ≤ I.nTypes) :
+    ∃ it w h, dims? I v = some ((v.natAbs : Int), w, h) ∧ I.item? (v.natAbs : Int) = some it ∧
+      ((w = it.w ∧ h = it.h) ∨ (w = it.h ∧ h = it.w)) ∧ 1 ≤ w ∧ w ≤ I.W ∧ 1 ≤ h ∧ h ≤ I.H :=
+  dims?_spec I hv v hv0 hr
+
+/-- **C01, encoding 1**: for every valid instance, every signed permutation with repetitions of its
+item ids and every prior content of the destination, `_decode` never leaves its arrays and produces a
+feasible packing whose reported bin count is the number of bins used; rows beyond the permutation are
+untouched. -/
+theorem decode1_feasible (I : Inst) (hv : I.Valid) (x : List Int) (hx : SignedPermOf I x)
+    (y0 : List Row) (hy : x.length ≤ y0.length) :
+    ∃ rows k, decode1? I x y0 = some (rows, k) ∧ Feasible I (rows.take x.length) k ∧
+      rows.drop x.length = y0.drop x.length := by
+  obtain ⟨st, hrun, hinv⟩ := run1_inv I hv x [] _ (inv1_init I) hx.2.1
+  simp only [List.nil_append] at hinv
+  have hlen : st.done.length = x.length := by
+    have := congrArg List.length hinv.ids
+    simpa using this
+  refine ⟨st.done ++ y0.drop x.length, st.binId, ?_, ?_, ?_⟩
+  · unfold decode1?
+    rw [if_neg (by omega), hrun]
+  · rw [← hlen, List.take_left']
+    · apply inv_feasible I hv x hx st.done st.binId hinv.ids hinv.inside hinv.dims hinv.bins hinv.pw
+      intro j hj
+      by_cases hlt : (j : Int) + 1 < st.binId
+      · exact hinv.used j hlt
+      · have hne : st.done ≠ [] := by
+          intro he
+          rw [he] at hlen
+          have h1 := Inst.nItems_pos' I hv
+          have h2 := hx.1
+          simp at hlen
+          omega
+        obtain ⟨p, hp, hpb⟩ := hinv.usedCur hne
+        exact ⟨p, hp, by omega⟩
+    · rfl
+  · rw [← hlen, List.drop_left']
+    rfl
+
+/-- statelessness of encoding 1 (also C14): the packing and bin count do not depend on the prior
+content of the destination -/
+theorem decode1_stateless (I : Inst) (x : List Int) (y0 y0' : List Row)
+    (hy : x.length ≤ y0.length) (hy' : x.length ≤ y0'.length) :
+    (decode1? I x y0).map (fun r => (r.1.take x.length, r.2)) =
+      (decode1? I x y0').map (fun r => (r.1.take x.length, r.2)) := by
+  unfold decode1?
+  rw [if_neg (by omega), if_neg (by omega)]
+  cases hrun : run1 I x { done := [], binStart := 0, binId := 1 } with
+  | none => rfl
+  | some st =>
+    have hl : st.done.length = x.length := by
+      have := run1_length I x _ st hrun
+      simpa using this
+    simp only [Option.map_some]
+    rw [← hl, List.take_left', List.take_left'] <;> rfl
+
+/-- **C01, encoding 2**: for every valid instance, every signed permutation, every prior content of the
+destination and of the two scratch arrays (`bin_starts`, `bin_ends`, each with room for one entry per
+item), `_decode` never leaves its arrays and produces a feasible packing whose reported bin count is the
+number of bins used; rows beyond the permutation are untouched. -/
+theorem decode2_feasible (I : Inst) (hv : I.Valid) (x : List Int) (hx : SignedPermOf I x)
+    (y0 : List Row) (s0 e0 : List Int) (hy : x.length ≤ y0.length)
+    (hs : x.length ≤ s0.length) (hse : s0.length = e0.length) :
+    ∃ rows k s e, decode2? I x y0 s0 e0 = some (rows, k, s, e) ∧ Feasible I (rows.take x.length) k ∧
+      rows.drop x.length = y0.drop x.length := by
+  have hxpos : 0 < x.length := by
+    have h1 := Inst.nItems_pos' I hv
+    have h2 := hx.1
+    omega
+  obtain ⟨st, hrun, hinv⟩ := run2_inv I hv x [] _ (inv2_init I s0 e0 hse (by omega)) hx.2.1
+    (by simp; omega)
+  simp only [List.nil_append] at hinv
+  have hlen : st.done.length = x.length := by
+    have := congrArg List.length hinv.ids
+    simpa using this
+  refine ⟨st.done ++ y0.drop x.length, st.binId, st.starts, st.ends, ?_, ?_, ?_⟩
+  · unfold decode2?
+    rw [if_neg (by omega), if_neg (by omega), hrun]
+  · rw [← hlen, List.take_left']
+    · have hne : st.done ≠ [] := by intro he; rw [he] at hlen; simp at hlen; omega
+      exact inv_feasible I hv x hx st.done st.binId hinv.ids hinv.inside hinv.dims hinv.bins hinv.pw
+        (hinv.used hne)
+    · rfl
+  · rw [← hlen, List.drop_left']
+    rfl
+
+/-- **storage type**: every value of a feasible packing (ids, bin numbers, coordinates) lies in
+`[0, max(maxDim, nItems)]`, the transient start position `(W−w, H, W, H+h)` of an item reaches at most `maxDim + maxSize`,
+and the integer type the instance selects for itself and its packings holds `0 .. max(maxDim + maxSize + 1, nItems + 1)` -/
+theorem packing_values_fit_dtype (I : Inst) (hv : I.Valid) (rows : List Row) (k : Int)
+    (hf : Feasible I rows k) (t : DType) (ht : I.dtype? = some t) :
+    (∀ a ∈ rows, ∀ v ∈ a.toList, t.lo ≤ v ∧ v ≤ t.hi) ∧
+    (∀ w h : Int, 1 ≤ w → w ≤ I.W → 1 ≤ h → h ≤ I.maxSize →
+      ∀ v ∈ [I.W - w, I.H, I.W, I.H + h], t.lo ≤ v ∧ v ≤ t.hi) := by
+  have hkl := bins_le_rows I rows k hf
+  have hd := dtypeFor_sound_signed I t ht
+  obtain ⟨hlen, hdims, hin, _, _, hbin, _⟩ := hf
+  have hms := maxSize_ge I
+  obtain ⟨hW, _, hH, _, _, _, hitems, _⟩ := hv
+  have hmd : I.W ≤ I.maxDim ∧ I.H ≤ I.maxDim := by unfold Inst.maxDim; omega
+  constructor
+  · intro a ha v hvv
+    obtain ⟨it, hit, hdm⟩ := hdims a ha
+    have hid := item?_eq I a.id it hit
+    have hmem : it ∈ I.items := by
+      unfold Inst.item? at hit
+      split at hit
+      · simp at hit
+      · exact List.mem_of_getElem? hit
+    have hi := hitems it hmem
+    have hm2 := hms it hmem
+    have hb := hbin a ha
+    have hi2 := hin a ha
+    have hnt : (I.nTypes : Int) ≤ I.nItems := Inst.nTypes_le_nItems I ⟨hW, ‹_›, hH, ‹_›, ‹_›, ‹_›, hitems, ‹_›⟩
+    unfold Row.HasDims at hdm
+    simp only [Row.toList, List.mem_cons, List.not_mem_nil, or_false] at hvv
+    rcases hvv with rfl | rfl | rfl | rfl | rfl | rfl <;> omega
+  · intro w h hw1 hw2 hh1 hh2 v hvv
+    simp only [List.mem_cons, List.not_mem_nil, or_false] at hvv
+    rcases hvv with rfl | rfl | rfl | rfl <;> omega
+
+/-! ### non-vacuity: a concrete valid instance, a signed permutation with a forced rotation, two bins -/
+def exI : Inst := ⟨10, 5, [⟨3, 8, 1⟩, ⟨6, 4, 2⟩]⟩
+example : exI.Valid := by decide
+example : SignedPermOf exI [2, -1, 2] := by decide
+example : (decode1? exI [2, -1, 2] [default, default, default]).map (·.2) = some 3 := by decide
+example : (decode2? exI [2, -1, 2] [default, default, default] [7, 7, 7] [9, 9, 9]).map (·.2.1) = some 3 := by decide
+example : exI.dtype? = some DType.int8 := by decide
+
+end Ibl
